@@ -68,6 +68,12 @@ func (b *buffer) get(v wireType) {
 		b.err = ErrMissingData
 		return
 	}
+	if s, ok := v.(*bindata); ok {
+		// an empty string or binary leaves the destination as is, a
+		// value from an earlier occurrence must not survive and widen
+		// the step below
+		*s = nil
+	}
 	if b.err = v.UnmarshalBinary(b.data[b.i:]); b.err != nil {
 		return
 	}
